@@ -366,8 +366,16 @@ def run_stream(name, requests, workdir, nworkers=NCPU, compare=None, weight=None
                 reasks += 1
                 # more failing inputs than listed: ask again for the complete list (bounded: a change
                 # that breaks millions of inputs needs no complete list)
-                _, raw = ask(ORACLE_HOOKS if needs_hooks(req) else ORACLE, [req], env={"ORACLE_PROP_CAP": "10000000"})
-                parts = raw[0].split("\t")
+                # (a request of a group is asked again after the requests that precede it in its group)
+                hist = []
+                for g in (groups or []):
+                    if req in g:
+                        hist = g[:g.index(req)]
+                        break
+                _, raw = ask(ORACLE_HOOKS if any(needs_hooks(x) for x in hist + [req]) else ORACLE, hist + [req],
+                             env={"ORACLE_PROP_CAP": "10000000", "ORACLE_STORM_EVERY": "0"})
+                if raw and raw[-1].split("\t")[0] == iresp:
+                    parts = raw[-1].split("\t")
             for item in parts[1:]:
                 if item.startswith("!PROP "):
                     _, pid, text = item.split(" ", 2)
